@@ -1,5 +1,473 @@
+/-
+  Helper lemmas for `Proofs/C02.lean` (byte fidelity: read, then write): facts about `applyMask`, the data mask
+  `tyMask`, scalars re-encoding to the bytes they were decoded from, and the mutual induction `rw_ty` / `rw_fields`
+  ("parse, then dump, gives back the masked input slice") over fragment S.
+-/
 import Proofs.Spec.C02
 import Proofs.Core
 namespace Cstruct.C02.Lemmas
-open Cstruct Cstruct.C02
+open Cstruct Cstruct.C02 Cstruct.Core Cstruct.Core.Lemmas
+
+/-! ### `applyMask` -/
+
+theorem applyMask_nil_left (bs : Bytes) : applyMask [] bs = [] := by cases bs <;> rfl
+
+theorem applyMask_nil_right (m : List Bool) : applyMask m [] = [] := by cases m <;> rfl
+
+theorem applyMask_length : ∀ (m : List Bool) (bs : Bytes), (applyMask m bs).length = min m.length bs.length
+  | [], bs => by rw [applyMask_nil_left]; simp
+  | _ :: _, [] => by rw [applyMask_nil_right]; simp
+  | m :: ms, b :: bs => by
+    simp only [applyMask, List.length_cons, applyMask_length ms bs]
+    omega
+
+theorem applyMask_append : ∀ (m1 m2 : List Bool) (b1 b2 : Bytes), m1.length = b1.length →
+    applyMask (m1 ++ m2) (b1 ++ b2) = applyMask m1 b1 ++ applyMask m2 b2
+  | [], m2, [], b2, _ => by simp [applyMask_nil_left]
+  | [], _, _ :: _, _, h => by simp at h
+  | _ :: _, _, [], _, h => by simp at h
+  | m :: ms, m2, b :: bs, b2, h => by
+    simp only [List.cons_append, applyMask]
+    rw [applyMask_append ms m2 bs b2 (by simpa using h)]
+
+theorem applyMask_true : ∀ (n : Nat) (bs : Bytes), bs.length = n → applyMask (List.replicate n true) bs = bs
+  | 0, [], _ => rfl
+  | 0, _ :: _, h => by simp at h
+  | _ + 1, [], h => by simp at h
+  | n + 1, b :: bs, h => by
+    simp only [List.replicate_succ, applyMask, if_true]
+    rw [applyMask_true n bs (by simpa using h)]
+
+theorem applyMask_false : ∀ (n : Nat) (bs : Bytes), bs.length = n → applyMask (List.replicate n false) bs = zeros n
+  | 0, [], _ => rfl
+  | 0, _ :: _, h => by simp at h
+  | _ + 1, [], h => by simp at h
+  | n + 1, b :: bs, h => by
+    simp only [List.replicate_succ, applyMask, zeros, Bool.false_eq_true, if_false]
+    have := applyMask_false n bs (by simpa using h)
+    simp only [zeros] at this
+    rw [this]
+
+/-- a gap, a member, the rest -/
+theorem applyMask_three (d : Bytes) (s a k r : Nat) (m mr : List Bool) (hm : m.length = k)
+    (hlen : s + a + k ≤ d.length) :
+    applyMask (List.replicate a false ++ m ++ mr) (sread d s (a + k + r)) =
+      zeros a ++ applyMask m (sread d (s + a) k) ++ applyMask mr (sread d (s + a + k) r) := by
+  have l1 : (sread d s a).length = a := sread_length_of_le d s a (by omega)
+  have l2 : (sread d (s + a) k).length = k := sread_length_of_le d (s + a) k (by omega)
+  rw [sread_add, sread_add, applyMask_append, applyMask_append, applyMask_false a _ l1, Nat.add_assoc]
+  · rw [List.length_replicate, l1]
+  · rw [List.length_append, List.length_append, List.length_replicate, l1, l2, hm]
+
+/-! ### Fragment S is plain and has no bit-fields -/
+
+mutual
+theorem fragS_plain (cfg : Cfg) : ∀ ty : Ty, ty.fragS cfg = true → ty.plain = true
+  | .sc _ _, _ => rfl
+  | .enum _ _ _, _ => rfl
+  | .ptr _, _ => rfl
+  | .arr e len, h => by
+    simp only [Ty.fragS, Bool.and_eq_true] at h
+    cases len with
+    | fixed n => simp only [Ty.plain, Bool.true_and]; exact fragS_plain cfg e h.2
+    | expr _ => simp at h
+    | nullTerm => simp at h
+    | eof => simp at h
+  | .struct _ fs, h => by
+    simp only [Ty.fragS] at h
+    simp only [Ty.plain]; exact fragS_plain_fields cfg fs h
+  | .union _ _, h => by simp [Ty.fragS] at h
+theorem fragS_plain_fields (cfg : Cfg) : ∀ fs : Fields, Fields.fragS cfg fs = true → Fields.plain fs = true
+  | .nil, _ => rfl
+  | .cons _ _ t _ r, h => by
+    simp only [Fields.fragS, Bool.and_eq_true] at h
+    simp only [Fields.plain, Bool.and_eq_true]
+    exact ⟨fragS_plain cfg t h.1.2, fragS_plain_fields cfg r h.2⟩
+end
+
+mutual
+theorem fragS_noBits (cfg : Cfg) : ∀ ty : Ty, ty.fragS cfg = true → ty.noBits = true
+  | .sc _ _, _ => rfl
+  | .enum _ _ _, _ => rfl
+  | .ptr _, _ => rfl
+  | .arr e len, h => by
+    simp only [Ty.fragS, Bool.and_eq_true] at h
+    simp only [Ty.noBits]; exact fragS_noBits cfg e h.2
+  | .struct _ fs, h => by
+    simp only [Ty.fragS] at h
+    simp only [Ty.noBits]; exact fragS_noBits_fields cfg fs h
+  | .union _ _, h => by simp [Ty.fragS] at h
+theorem fragS_noBits_fields (cfg : Cfg) : ∀ fs : Fields, Fields.fragS cfg fs = true → Fields.noBits fs = true
+  | .nil, _ => rfl
+  | .cons _ _ t bits r, h => by
+    simp only [Fields.fragS, Bool.and_eq_true, Option.isNone_iff_eq_none] at h
+    obtain ⟨⟨rfl, h1⟩, h2⟩ := h
+    simp only [Fields.noBits, Bool.and_eq_true]
+    exact ⟨⟨trivial, fragS_noBits cfg t h1⟩, fragS_noBits_fields cfg r h2⟩
+end
+
+/-- position facts of a successful read of a fragment-S type (from the window lemmas) -/
+theorem pf_S (cfg : Cfg) (al : Bool) (d : Bytes) (ty : Ty) (hS : ty.fragS cfg = true)
+    (hU : ty.uniformAlign al = true) (hP : ty.pow2Aligned cfg) : ElemPF cfg al ty d :=
+  pf_ty cfg al d ty (fragS_plain cfg ty hS) (fragS_noBits cfg ty hS) hU hP
+
+/-! ### The mask has the size of the type -/
+
+mutual
+theorem tyMask_length (cfg : Cfg) : ∀ ty : Ty, ty.fragS cfg = true → ∀ k, ty.size cfg = some k →
+    (tyMask cfg ty).length = k
+  | .sc s _, _, k, hk => by
+    simp only [Ty.size] at hk
+    simp only [tyMask, hk, Option.getD_some, List.length_replicate]
+  | .enum b _ _, _, k, hk => by
+    simp only [Ty.size] at hk
+    simp only [tyMask, hk, Option.getD_some, List.length_replicate]
+  | .ptr _, _, k, hk => by
+    simp only [Ty.size] at hk
+    simp only [tyMask, hk, Option.getD_some, List.length_replicate]
+  | .union _ _, h, _, _ => by simp [Ty.fragS] at h
+  | .arr e len, h, k, hk => by
+    simp only [Ty.fragS, Bool.and_eq_true] at h
+    cases len with
+    | expr _ => simp at h
+    | nullTerm => simp at h
+    | eof => simp at h
+    | fixed n =>
+      simp only [Ty.size] at hk
+      cases he : e.size cfg with
+      | none => rw [he] at hk; cases hk
+      | some k' =>
+        rw [he] at hk; cases hk
+        have ih := tyMask_length cfg e h.2 k' he
+        simp only [tyMask, List.length_flatten, List.map_replicate, List.sum_replicate_nat, ih]
+  | .struct al fs, h, k, hk => by
+    simp only [Ty.fragS] at h
+    rw [struct_size cfg al fs h] at hk
+    cases hk
+    have ih := fieldsMask_length cfg fs h al 0
+    have h1 := le_endOff cfg al fs 0
+    have h2 := le_alignTo al (endOff cfg al fs 0) (Fields.maxAlign cfg fs 0)
+    simp only [tyMask, structLayout_S cfg al fs h, List.length_append, List.length_replicate, ih]
+    omega
+theorem fieldsMask_length (cfg : Cfg) : ∀ fs : Fields, Fields.fragS cfg fs = true → ∀ (al : Bool) (o : Nat),
+    (fieldsMask cfg fs (offsS cfg al fs o) o).length = endOff cfg al fs o - o
+  | .nil, _, _, _ => by simp [fieldsMask, endOff]
+  | .cons _ _ ty bits r, h, al, o => by
+    simp only [Fields.fragS, Bool.and_eq_true, Option.isNone_iff_eq_none] at h
+    obtain ⟨⟨rfl, h1⟩, h2⟩ := h
+    obtain ⟨k, hk⟩ := fragS_size cfg ty h1
+    have hm := tyMask_length cfg ty h1 k hk
+    have ih := fieldsMask_length cfg r h2 al (alignTo al o (ty.alignment cfg) + k)
+    have hle := le_alignTo al o (ty.alignment cfg)
+    have hle2 := le_endOff cfg al r (alignTo al o (ty.alignment cfg) + k)
+    simp only [offsS, endOff, hk, Option.getD_some, fieldsMask, List.headD_cons, List.drop_succ_cons, List.drop_zero,
+      List.length_append, List.length_replicate, hm, ih]
+    omega
+end
+
+/-! ### Scalars: the value re-encodes to exactly the bytes it was decoded from -/
+
+theorem fragS_sc_of_isInt (cfg : Cfg) (s : Scalar) (a : Nat) (h : Scalar.isInt s = true) :
+    (Ty.sc s a).fragS cfg = true := by
+  cases s <;> simp [Scalar.isInt] at h <;> rfl
+
+theorem scalar_rw (cfg : Cfg) (s : Scalar) (a : Nat) (hS : (Ty.sc s a).fragS cfg = true) (d : Bytes) (pos : Nat)
+    (v : Val) (p : Nat) (h : readScalar cfg s d pos = .ok (v, p)) :
+    ∃ k, s.size = some k ∧ p = pos + k ∧ (sread d pos k).length = k ∧ writeScalar cfg s v = .ok (sread d pos k) := by
+  cases s with
+  | pint n sg =>
+    simp only [readScalar, bind, pure] at h
+    obtain ⟨⟨bs, q⟩, h1, h2⟩ := bind_ok h
+    obtain ⟨hl, hr⟩ := readExact_ok h1
+    cases hr; cases h2
+    refine ⟨n, rfl, rfl, hl, ?_⟩
+    have := (C05.c05_int_roundtrip_bytes cfg.endian sg (sread d pos n)).2
+    rw [hl] at this
+    simp only [writeScalar, this]
+  | aint n sg =>
+    simp only [readScalar, bind, pure] at h
+    obtain ⟨⟨bs, q⟩, h1, h2⟩ := bind_ok h
+    obtain ⟨hl, hr⟩ := readExact_ok h1
+    cases hr; cases h2
+    refine ⟨n, rfl, rfl, hl, ?_⟩
+    have := (C05.c05_int_roundtrip_bytes cfg.endian sg (sread d pos n)).2
+    rw [hl] at this
+    simp only [writeScalar, this]
+  | pflt n =>
+    simp only [readScalar, bind, pure] at h
+    obtain ⟨⟨bs, q⟩, h1, h2⟩ := bind_ok h
+    obtain ⟨hl, hr⟩ := readExact_ok h1
+    cases hr; cases h2
+    refine ⟨n, rfl, rfl, hl, ?_⟩
+    have h1 := C05.Lemmas.decodeNat_lt cfg.endian (sread d pos n)
+    have h2 := C05.Lemmas.encBytes_decodeNat cfg.endian (sread d pos n)
+    rw [hl] at h1 h2
+    have heq : ∀ u, encodeBits cfg.endian n u = C05.Lemmas.encBytes cfg.endian n u := fun _ => rfl
+    simp only [writeScalar, if_pos h1, heq, h2]
+  | char =>
+    simp only [readScalar, bind, pure] at h
+    obtain ⟨⟨bs, q⟩, h1, h2⟩ := bind_ok h
+    obtain ⟨hl, hr⟩ := readExact_ok h1
+    cases hr; cases h2
+    exact ⟨1, rfl, rfl, hl, rfl⟩
+  | void =>
+    simp only [readScalar] at h
+    cases h
+    exact ⟨0, rfl, rfl, by simp [sread_zero], by simp [sread_zero, writeScalar]⟩
+  | wchar => simp [Ty.fragS] at hS
+  | leb sg => simp [Ty.fragS] at hS
+
+/-- the mask of a scalar-sized type is all data -/
+theorem applyMask_scalar (d : Bytes) (pos k : Nat) (h : (sread d pos k).length = k) :
+    applyMask (List.replicate k true) (sread d pos k) = sread d pos k :=
+  applyMask_true k _ h
+
+/-! ### Arrays -/
+
+/-- element loop: read `n` elements, write them back -/
+theorem rw_N (cfg : Cfg) (al : Bool) (e : Ty) (k : Nat) (m : List Bool) (hk : e.size cfg = some k)
+    (hm : m.length = k) (d : Bytes) (hPF : ElemPF cfg al e d)
+    (hE : ∀ ctx pos v p, read cfg e ctx d pos = .ok (v, p) → p ≤ d.length → (al = true → sAlign cfg e ∣ pos) →
+      write cfg e v pos = .ok (applyMask m (sread d pos k))) :
+    ∀ (n : Nat) (ctx : Ctx) (pos : Nat) (vs : Vals) (p : Nat), readN cfg e n ctx d pos = .ok (vs, p) →
+      p ≤ d.length → (al = true → sAlign cfg e ∣ pos) →
+      writeN cfg e vs pos = .ok (applyMask (List.replicate n m).flatten (sread d pos (n * k))) := by
+  intro n
+  induction n with
+  | zero =>
+    intro ctx pos vs p h _ _
+    rw [readN_zero] at h; cases h
+    rw [writeN_nil]; simp [applyMask_nil_left]
+  | succ n ih =>
+    intro ctx pos vs p h hlen hpos
+    rw [readN_succ] at h
+    obtain ⟨⟨v, p1⟩, h1, h2⟩ := bind_ok h
+    obtain ⟨⟨vs', p'⟩, h3, h4⟩ := bind_ok h2
+    cases h4
+    obtain ⟨a1, a2, a3⟩ := hPF _ _ _ _ h1 hpos
+    obtain ⟨b1, _, _⟩ := pf_N cfg al e d hPF n _ p1 vs' p h3 a2
+    have hp1 := a3 k hk
+    have w1 := hE ctx pos v p1 h1 (by omega) hpos
+    have w2 := ih _ p1 vs' p h3 hlen a2
+    have l1 : (sread d pos k).length = k := sread_length_of_le d pos k (by omega)
+    have l2 : (applyMask m (sread d pos k)).length = k := by rw [applyMask_length, hm, l1]; omega
+    rw [writeN_cons, w1]
+    simp only [Except.bind]
+    rw [l2, ← hp1, w2]
+    have e1 : (n + 1) * k = k + n * k := by rw [Nat.succ_mul]; omega
+    rw [e1, sread_add, List.replicate_succ, List.flatten_cons, applyMask_append _ _ _ _ (by rw [hm, l1]), ← hp1]
+
+/-- a successful array read of a non-`char` element type is the element loop -/
+theorem readN_of_readArray (cfg : Cfg) (al : Bool) (e : Ty) (hS : e.fragS cfg = true) (hU : e.uniformAlign al = true)
+    (hP : e.pow2Aligned cfg) (hne : ∀ a, e ≠ .sc .char a) (ctx : Ctx) (d : Bytes) (n pos : Nat) (v : Val) (p : Nat)
+    (h : readArray cfg e n ctx d pos = .ok (v, p)) (hlen : p ≤ d.length) (hpos : al = true → sAlign cfg e ∣ pos) :
+    ∃ vs, v = .list vs ∧ readN cfg e n ctx d pos = .ok (vs, p) := by
+  obtain ⟨k, hk⟩ := fragS_size cfg e hS
+  obtain ⟨_, _, a3⟩ := pf_array cfg al e d (pf_S cfg al d e hS hU hP) n ctx pos v p h hpos
+  have hp := a3 k hk
+  have hdvd : al = true → sAlign cfg e ∣ k := by
+    intro ha; subst ha; exact size_sAlign_dvd cfg e hS hU hP k hk
+  obtain ⟨vs, h1, _⟩ := rs_N cfg al e k d hdvd
+    (fun ctx pos hl hp => rs_ty cfg al e hS hU hP ctx d pos k hk hl hp) n ctx pos (by omega) hpos
+  have h2 := readArray_of_readN cfg e hS hne ctx d n pos vs _ h1
+  rw [h] at h2
+  cases h2
+  exact ⟨vs, rfl, by rw [hp]; exact h1⟩
+
+/-! ### The induction: parse, then dump -/
+
+mutual
+theorem rw_ty (cfg : Cfg) (al : Bool) : ∀ (ty : Ty), ty.fragS cfg = true → ty.uniformAlign al = true →
+    ty.pow2Aligned cfg → ∀ (ctx : Ctx) (d : Bytes) (pos : Nat) (v : Val) (p : Nat),
+    read cfg ty ctx d pos = .ok (v, p) → p ≤ d.length → (al = true → sAlign cfg ty ∣ pos) →
+    ∀ k, ty.size cfg = some k →
+      p = pos + k ∧ write cfg ty v pos = .ok (applyMask (tyMask cfg ty) (sread d pos k))
+  | .sc s a, hS, _, _, ctx, d, pos, v, p, h, _, _, k, hk => by
+    rw [read_sc] at h
+    obtain ⟨k', s1, s2, s3, s4⟩ := scalar_rw cfg s a hS d pos v p h
+    simp only [Ty.size] at hk
+    rw [hk] at s1; cases s1
+    refine ⟨s2, ?_⟩
+    rw [write_sc, s4]
+    simp only [tyMask, hk, Option.getD_some, applyMask_scalar d pos k s3]
+  | .enum b a f, hS, _, _, ctx, d, pos, v, p, h, _, _, k, hk => by
+    rw [read_enum] at h
+    obtain ⟨i, q, h1, h2⟩ := wrapInt_ok h
+    cases h2
+    simp only [Ty.fragS] at hS
+    obtain ⟨k', s1, s2, s3, s4⟩ := scalar_rw cfg b a (fragS_sc_of_isInt cfg b a hS) d pos _ _ h1
+    simp only [Ty.size] at hk
+    rw [hk] at s1; cases s1
+    refine ⟨s2, ?_⟩
+    rw [write_enum_enum, s4]
+    simp only [tyMask, hk, Option.getD_some, applyMask_scalar d pos k s3]
+  | .ptr t, hS, _, _, ctx, d, pos, v, p, h, _, _, k, hk => by
+    rw [read_ptr] at h
+    obtain ⟨i, q, h1, h2⟩ := wrapInt_ok h
+    cases h2
+    simp only [Ty.fragS] at hS
+    obtain ⟨k', s1, s2, s3, s4⟩ := scalar_rw cfg cfg.ptr 0 (fragS_sc_of_isInt cfg cfg.ptr 0 hS) d pos _ _ h1
+    simp only [Ty.size] at hk
+    rw [hk] at s1; cases s1
+    refine ⟨s2, ?_⟩
+    rw [write_ptr_ptr, s4]
+    simp only [tyMask, hk, Option.getD_some, applyMask_scalar d pos k s3]
+  | .union _ _, hS, _, _, _, _, _, _, _, _, _, _, _, _ => by simp [Ty.fragS] at hS
+  | .arr e len, hS, hU, hP, ctx, d, pos, v, p, h, hlen, hpos, k, hk => by
+    simp only [Ty.fragS, Bool.and_eq_true] at hS
+    simp only [Ty.uniformAlign] at hU
+    simp only [Ty.pow2Aligned] at hP
+    simp only [sAlign] at hpos
+    cases len with
+    | expr _ => simp at hS
+    | nullTerm => simp at hS
+    | eof => simp at hS
+    | fixed n =>
+      obtain ⟨k', hk'⟩ := fragS_size cfg e hS.2
+      simp only [Ty.size, hk'] at hk
+      cases hk
+      rw [read_arr_fixed] at h
+      obtain ⟨_, _, a3⟩ := pf_array cfg al e d (pf_S cfg al d e hS.2 hU hP) n ctx pos v p h hpos
+      have hp := a3 k' hk'
+      refine ⟨hp, ?_⟩
+      have hml := tyMask_length cfg e hS.2 k' hk'
+      by_cases hc : ∃ a, e = .sc .char a
+      · obtain ⟨a, rfl⟩ := hc
+        cases hk'
+        simp only [tyMask, Scalar.size, Option.getD_some]
+        rw [List.flatten_replicate_replicate]
+        have hl : (sread d pos (n * 1)).length = n * 1 := sread_length_of_le d pos _ (by omega)
+        rw [applyMask_true _ _ hl, Nat.mul_one]
+        rw [readArray_char] at h
+        split at h
+        · rename_i h0; subst h0
+          cases h
+          rw [write_arr_chars, sread_zero]
+        · obtain ⟨⟨bs, q⟩, h1, h2⟩ := bind_ok h
+          obtain ⟨_, hr⟩ := readExact_ok h1
+          cases hr; cases h2
+          rw [write_arr_chars]
+      · have hne : ∀ a, e ≠ .sc .char a := fun a h => hc ⟨a, h⟩
+        obtain ⟨vs, rfl, h1⟩ := readN_of_readArray cfg al e hS.2 hU hP hne ctx d n pos v p h hlen hpos
+        have hPFN := pf_N cfg al e d (pf_S cfg al d e hS.2 hU hP) n ctx pos vs p h1 hpos
+        have hw := rw_N cfg al e k' (tyMask cfg e) hk' hml d (pf_S cfg al d e hS.2 hU hP)
+          (fun ctx pos v p hr hl hp => (rw_ty cfg al e hS.2 hU hP ctx d pos v p hr hl hp k' hk').2)
+          n ctx pos vs p h1 hlen hpos
+        have hvl : vs.length = n := by
+          obtain ⟨ws, g1, g2⟩ := rs_N cfg al e k' d
+            (fun ha => by subst ha; exact size_sAlign_dvd cfg e hS.2 hU hP k' hk')
+            (fun ctx pos hl hp => rs_ty cfg al e hS.2 hU hP ctx d pos k' hk' hl hp) n ctx pos (by omega) hpos
+          rw [← hp, h1] at g1
+          cases g1
+          exact hasTyN_length cfg e n _ g2
+        rw [write_arr_list, if_neg (by rw [hvl]; simp), hw]
+        simp only [tyMask]
+  | .struct al' fs, hS, hU, hP, ctx, d, pos, v, p, h, hlen, hpos, k, hk => by
+    simp only [Ty.fragS] at hS
+    simp only [Ty.uniformAlign, Bool.and_eq_true, beq_iff_eq] at hU
+    simp only [Ty.pow2Aligned] at hP
+    obtain ⟨rfl, hU⟩ := hU
+    rw [struct_size cfg al' fs hS] at hk
+    cases hk
+    rw [read_struct, structLayout_S cfg al' fs hS] at h
+    simp only [Except.bind] at h
+    obtain ⟨⟨vs, szs, q⟩, h3, h4⟩ := bind_ok h
+    have hdv : al' = true → allAlignDvd cfg pos fs :=
+      fun ha => allAlignDvd_of_sAlign cfg al' fs hP pos (hpos ha)
+    have h3' : readFields cfg al' fs (offsS cfg al' fs 0) pos BitBuf.empty [] d (pos + 0) = .ok (vs, szs, q) := h3
+    obtain ⟨b1, b2⟩ := rw_fields cfg al' fs hS hU hP [] d pos 0 BitBuf.empty vs szs q h3' hdv
+    have hml := fieldsMask_length cfg fs hS al' 0
+    have hE := le_endOff cfg al' fs 0
+    simp only [Nat.sub_zero, Nat.add_zero] at b2 hml
+    generalize hEd : endOff cfg al' fs 0 = E at *
+    generalize hMd : Fields.maxAlign cfg fs 0 = M at *
+    have hpad : al' = true → padNat (pos + E) M = padNat E M := by
+      intro ha; subst ha; subst hMd; exact padNat_struct cfg true fs hP pos E (hpos rfl)
+    have hv : v = .record vs := by cases h4; rfl
+    subst hv
+    have hp : p = pos + alignTo al' E M := by
+      cases h4
+      cases al' with
+      | false => simp [alignTo, b1]
+      | true => simp only [alignTo, if_true, b1, hpad rfl]; omega
+    have hle := le_alignTo al' E M
+    refine ⟨hp, ?_⟩
+    obtain ⟨w, _⟩ := b2 (by omega)
+    have l1 : (sread d pos E).length = E := sread_length_of_le d pos E (by omega)
+    have l2 : (sread d (pos + E) (alignTo al' E M - E)).length = alignTo al' E M - E :=
+      sread_length_of_le d _ _ (by omega)
+    have lo : (applyMask (fieldsMask cfg fs (offsS cfg al' fs 0) 0) (sread d pos E)).length = E := by
+      rw [applyMask_length, hml, l1]; omega
+    rw [write_struct, structLayout_S cfg al' fs hS]
+    simp only [Except.bind, w, flushBits_empty, List.append_nil, hMd]
+    simp only [tyMask, structLayout_S cfg al' fs hS, hml, hEd, hMd]
+    have e1 : alignTo al' E M = E + (alignTo al' E M - E) := by omega
+    rw [e1, sread_add, applyMask_append _ _ _ _ (by rw [hml, l1]), ← e1, applyMask_false _ _ l2, lo]
+    cases al' with
+    | false => simp [alignTo, zeros]
+    | true => simp only [if_true, hpad rfl, alignTo]; congr 3; omega
+theorem rw_fields (cfg : Cfg) (al : Bool) : ∀ (fs : Fields), Fields.fragS cfg fs = true →
+    Fields.uniformAlign al fs = true → fs.pow2Aligned cfg →
+    ∀ (ctx : Ctx) (d : Bytes) (start o : Nat) (bb : BitBuf) (vs : Vals) (szs : List (String × Nat)) (q : Nat),
+    readFields cfg al fs (offsS cfg al fs o) start bb ctx d (start + o) = .ok (vs, szs, q) →
+    (al = true → allAlignDvd cfg start fs) →
+    q = start + endOff cfg al fs o ∧
+    (q ≤ d.length →
+      writeFields cfg al fs (offsS cfg al fs o) vs start BitBuf.empty (start + o) =
+        .ok (applyMask (fieldsMask cfg fs (offsS cfg al fs o) o) (sread d (start + o) (endOff cfg al fs o - o)),
+          BitBuf.empty) ∧ True)
+  | .nil, _, _, _, ctx, d, start, o, bb, vs, szs, q, h, _ => by
+    rw [readFields_nil] at h; cases h
+    refine ⟨rfl, fun _ => ⟨?_, trivial⟩⟩
+    rw [writeFields_nil]
+    simp [fieldsMask, applyMask_nil_left]
+  | .cons name an ty bits rest, hS, hU, hP, ctx, d, start, o, bb, vs, szs, q, h, hdv => by
+    simp only [Fields.fragS, Bool.and_eq_true, Option.isNone_iff_eq_none] at hS
+    obtain ⟨⟨rfl, hS1⟩, hS2⟩ := hS
+    simp only [Fields.uniformAlign, Bool.and_eq_true] at hU
+    simp only [Fields.pow2Aligned] at hP
+    obtain ⟨k, hk⟩ := fragS_size cfg ty hS1
+    have hfa := alignment_p2 cfg ty hP.1
+    have hle := le_alignTo al o (ty.alignment cfg)
+    have hpos : al = true → sAlign cfg ty ∣ start + alignTo al o (ty.alignment cfg) := by
+      intro ha; subst ha
+      have h1 := (hdv rfl).1
+      exact Nat.dvd_trans (sAlign_dvd_alignment cfg ty) (Nat.dvd_add h1 (alignTo_dvd hfa o))
+    have hml := tyMask_length cfg ty hS1 k hk
+    simp only [offsS, hk, Option.getD_some] at h ⊢
+    simp only [endOff, hk, Option.getD_some]
+    generalize alignTo al o (ty.alignment cfg) = fo at *
+    rw [readFields_cons_S] at h
+    obtain ⟨⟨v, p1⟩, h1, h2⟩ := bind_ok h
+    obtain ⟨⟨vs', szs', q'⟩, h3, h4⟩ := bind_ok h2
+    cases h4
+    obtain ⟨_, _, a3⟩ := pf_S cfg al d ty hS1 hU.1 hP.1 ctx (start + fo) v p1 h1 hpos
+    have hp1 : p1 = start + (fo + k) := by rw [a3 k hk]; omega
+    rw [hp1] at h3
+    obtain ⟨b1, b2⟩ := rw_fields cfg al rest hS2 hU.2 hP.2 _ d start (fo + k) _ vs' szs' q h3 (fun ha => (hdv ha).2)
+    have hE := le_endOff cfg al rest (fo + k)
+    refine ⟨b1, fun hq => ⟨?_, trivial⟩⟩
+    obtain ⟨_, w1⟩ := rw_ty cfg al ty hS1 hU.1 hP.1 ctx d (start + fo) v p1 h1 (by omega) hpos k hk
+    obtain ⟨w2, _⟩ := b2 hq
+    generalize endOff cfg al rest (fo + k) = E at *
+    have hpad : (if start + o < start + fo then start + fo - (start + o) else 0) = fo - o := by
+      split <;> omega
+    have l1 : (sread d (start + fo) k).length = k := sread_length_of_le d _ k (by omega)
+    have lb : (applyMask (tyMask cfg ty) (sread d (start + fo) k)).length = k := by
+      rw [applyMask_length, hml, l1]; omega
+    rw [writeFields_cons_S, hpad]
+    have e1 : start + o + (fo - o) = start + fo := by omega
+    rw [e1, w1]
+    simp only [Except.bind]
+    have e2 : start + o + (zeros (fo - o) ++ applyMask (tyMask cfg ty) (sread d (start + fo) k)).length =
+        start + (fo + k) := by
+      simp only [List.length_append, zeros, List.length_replicate, lb]; omega
+    rw [e2, w2]
+    simp only [fieldsMask, List.headD_cons, Option.getD_some, List.drop_succ_cons, List.drop_zero, hml]
+    have e3 : E - o = (fo - o) + k + (E - (fo + k)) := by omega
+    rw [e3, applyMask_three d (start + o) (fo - o) k _ _ _ hml (by omega), e1]
+    have e4 : start + fo + k = start + (fo + k) := by omega
+    rw [e4]
+end
+
 end Cstruct.C02.Lemmas
